@@ -65,7 +65,8 @@ TWriteDone == /\ IsEvent("WriteDone") /\ Run /\ ~Ev.inline
                  ELSE Ev.ec \in {"not_connected", "eof", "bad_descriptor"} /\ WriteFailed(Ev.s, Ev.h)
 TRead == IsEvent("Read") /\ Run /\ sk[Ev.s].conn = Ev.conn /\ StartRead(Ev.s, Ev.h, Ev.style, Ev.cap)
 Current == sk[Ev.s].rd # None /\ sk[Ev.s].rd.h = Ev.h
-ReadOutcome == IF Current THEN (IF Ev.ec = "ok" THEN ReadData(Ev.s, Ev.h, Ev.n, Ev.sid, Ev.off)
+ReadOutcome == IF Ev.ec = "not_connected" THEN ReadAfterEof(Ev.s, Ev.h)
+               ELSE IF Current THEN (IF Ev.ec = "ok" THEN ReadData(Ev.s, Ev.h, Ev.n, Ev.sid, Ev.off)
                                 ELSE Ev.ec = "eof" /\ ReadEof(Ev.s, Ev.h))
                ELSE (IF Ev.ec = "ok" THEN ReadDataLate(Ev.s, Ev.n, Ev.sid, Ev.off)
                      ELSE Ev.ec = "eof" /\ ReadEofLate(Ev.s))
